@@ -856,7 +856,7 @@ class Inliner:
                         continue
                     params = [a.arg for a in d.args.args + d.args.kwonlyargs]
                     args = [a.id if isinstance(a, ast.Name) else None for a in call.args] + [k.value.id if isinstance(k.value, ast.Name) and k.arg else None for k in call.keywords]
-                    if args != params or d.args.vararg or d.args.kwarg:
+                    if args != params or d.args.vararg or d.args.kwarg or d.args.kwonlyargs or call.keywords:
                         continue
                     hdef = funcs[call.func.id]
                     if len(hdef.args.args) + len(hdef.args.kwonlyargs) != len(params) or hdef.args.vararg or hdef.args.kwarg:
